@@ -103,13 +103,14 @@ def problem(case):
     raise ValueError(fam)
 
 
-def make_model(f, x0, t0, h):
+def make_model(f, x0, t0, h, int_state=False):
     from kawin.GenericModel import GenericModel
 
     class M(GenericModel):
         def __init__(self):
             self.t = [t0]
-            self.xs = [np.array(x0, dtype=float)]
+            # an initial state given as integers (a legal initial value) must not change the arithmetic of the stages
+            self.xs = [np.array(x0, dtype=np.int64 if int_state else float)]
             self.calls = []
 
         def getCurrentX(self):
@@ -150,7 +151,7 @@ def sup_error(case, refine):
     f, ex, y0, rate = problem(case)
     h = case["h"] / refine
     n = case["nsteps"] * refine
-    m = make_model(f, y0, case["t0"], h)
+    m = make_model(f, y0, case["t0"], h, int_state=bool(case.get("int_state")) and bool(np.all(np.asarray(y0) == np.round(y0))))
     # the duration need not be a multiple of the step: a tail (fraction of the coarsest step) leaves a shorter last step,
     # and the minimum step fraction is an input of solve() like any other
     total = (case["nsteps"] + case.get("tail", 0.0)) * case["h"]
@@ -175,7 +176,7 @@ def check_order(case):
     e3, _, n3 = sup_error(case, 4)
     sc = max(sc, 1e-3)
     lo, hi = 1e-11 * sc, 5e-2 * sc
-    out.label("fam_" + case["family"], case["iterator"], "entry_" + case.get("entry", "direct"))
+    out.label("fam_" + case["family"], case["iterator"], "entry_" + case.get("entry", "direct"), *(["integer_typed_state"] if case.get("int_state") else []))
     if case.get("tail"):
         out.label("short_last_step", "tail_below_min_step" if case["tail"] * case["h"] < case.get("minfrac", 0) * (case["nsteps"] + case["tail"]) * case["h"] else "tail_above_min_step")
     if not (all(np.isfinite([e1, e2, e3])) and lo <= e3 and e1 <= hi and e2 >= lo):
@@ -270,8 +271,13 @@ def _case(iterators, fams):
         fam = draw(st.sampled_from(fams))
         p = [draw(st.floats(0.2, 3.0)) * draw(st.sampled_from([-1.0, 1.0])) for _ in range(3)]
         x0 = [draw(st.floats(0.1, 2.0)) * draw(st.sampled_from([-1.0, 1.0])) for _ in range(draw(st.integers(1, 3)))]
+        int_state = draw(st.integers(0, 5)) == 5
+        if int_state:
+            x0 = [float(draw(st.sampled_from([1, 2, -1, -2]))) for _ in x0]        # handed to the solver as an integer array
         t0 = draw(st.sampled_from([0.0, 0.0, 0.5, 1.0, 3.0]) if fam != "poly" else st.sampled_from([0.5, 1.0, 2.0]))
         case = {"iterator": it, "family": fam, "p": p, "x0": x0, "t0": t0, "h": 1.0, "nsteps": 1}
+        if int_state:
+            case["int_state"] = True
         rate = problem(case)[3]
         if it == "euler":
             rh = draw(st.floats(1e-3, 1e-2))
